@@ -39,6 +39,7 @@ type World struct {
 	OnlyProp    string
 	tags        map[string]int
 	recLocals   map[string][]localDecl
+	recLoopVars map[string]map[string][]string // function -> loop ordinal -> names of the loop-carried variables when recorded
 	renameCache map[*ssa.Function]map[string]string
 	Covers      bool // generate clause-cover queries (thorough tier)
 	debug       map[*ssa.Function]map[string][]*ssa.DebugRef
